@@ -55,11 +55,62 @@ type c13Rule struct {
 	Do, Filt    int // -1 = none
 	Bad         bool
 	Line        int
+	// rendering details that the model does not see:
+	// Typed: the rule (bucket 0, one key) also carries Where(m["$$"].Type.Is("*<pkg>.<T>")) spelt with the package NAME
+	// that, in the rule's own group (its Import()s, else the stdlib default), denotes the package of the result type of
+	// c<Key>() — so under the documented resolution the filter is true exactly on the nodes the model expects;
+	// badKind: which unloadable construct a Bad rule is rendered as (0 pattern that does not parse, 1 type filter
+	// naming a package nobody imports)
+	Typed   bool
+	badKind int
 }
 
 type c13Group struct {
 	Name, Line int
 	Rules      []c13Rule
+	Imports    []string // Import() declarations of the group (rendering detail: the model does not see them)
+}
+
+// c13KeyTypes: the result type of the probe function c<K>() — pairs of standard packages that share a base name, one of
+// each pair being the default the engine resolves the bare name to (scanner -> go/scanner, template -> text/template)
+var c13KeyTypes = map[int][2]string{
+	1: {"go/scanner", "Scanner"}, 2: {"text/scanner", "Scanner"}, 3: {"text/template", "Template"}, 4: {"html/template", "Template"},
+	5: {"math/rand", "Rand"},
+}
+
+var c13ImportPool = []string{"text/scanner", "html/template", "go/scanner", "text/template", "text/scanner", "html/template"}
+
+var c13Defaults = map[string]string{"scanner": "go/scanner", "template": "text/template", "rand": "math/rand"}
+
+// c13Resolve: the package a bare package name denotes inside a group: the group's last Import() with that base name,
+// else the stdlib default (the property's own reading, C20).
+func c13Resolve(imports []string, name string) string {
+	for i := len(imports) - 1; i >= 0; i-- {
+		if filepath.Base(imports[i]) == name {
+			return imports[i]
+		}
+	}
+	return c13Defaults[name]
+}
+
+// c13TypedKeys: the keys whose result type can be spelt with a bare package name inside a group with these imports
+func c13TypedKeys(imports []string) []int {
+	var ks []int
+	for k := 1; k <= 4; k++ {
+		kt := c13KeyTypes[k]
+		if c13Resolve(imports, filepath.Base(kt[0])) == kt[0] {
+			ks = append(ks, k)
+		}
+	}
+	return ks
+}
+
+func c13TypeFilterArg(r c13Rule) string {
+	if r.Bad {
+		return "*nosuchpkg.Thing"
+	}
+	kt := c13KeyTypes[r.Key]
+	return "*" + filepath.Base(kt[0]) + "." + kt[1]
 }
 
 type c13Unit struct {
@@ -163,9 +214,13 @@ var c13ProbeNodes = [][2]int{{0, 1}, {0, 2}, {1, 1}, {0, 3}, {1, 2}, {0, 4}, {1,
 
 func c13ProbeSrc() string {
 	var sb strings.Builder
-	sb.WriteString("package p\n\n")
+	sb.WriteString("package p\n\nimport (\n")
 	for k := 1; k <= 5; k++ {
-		fmt.Fprintf(&sb, "func c%d() {}\n", k)
+		fmt.Fprintf(&sb, "\tq%d %q\n", k, c13KeyTypes[k][0])
+	}
+	sb.WriteString(")\n\n")
+	for k := 1; k <= 5; k++ {
+		fmt.Fprintf(&sb, "func c%d() *q%d.%s { return nil }\n", k, k, c13KeyTypes[k][1])
 	}
 	sb.WriteString("\nfunc f() {\n\tvar v1, v2, v3, v4 int\n")
 	for _, n := range c13ProbeNodes {
@@ -241,7 +296,15 @@ func c13FuncSrc(f c13Func) string {
 	}
 }
 
+// hasTypeFilter: the rule is rendered with a Type.Is filter (a typed rule, or a Bad rule of kind 1)
+func (r c13Rule) hasTypeFilter() bool {
+	return r.Bucket != 2 && (r.Typed && !r.Bad || r.Bad && r.badKind == 1)
+}
+
 func c13Pattern(r c13Rule) string {
+	if r.Bad && r.badKind == 1 && r.Bucket != 2 {
+		r.Bad = false
+	}
 	switch r.Bucket {
 	case 0:
 		if r.Bad {
@@ -314,6 +377,9 @@ func (u *c13Unit) render(pkgName string, bundles []c13Bundle, declareBundle bool
 	for gi := range u.Groups {
 		g := &u.Groups[gi]
 		g.Line = add(fmt.Sprintf("func g%03d(m dsl.Matcher) {", g.Name))
+		for _, imp := range g.Imports {
+			add(fmt.Sprintf("\tm.Import(%q)", imp))
+		}
 		for ri := range g.Rules {
 			r := &g.Rules[ri]
 			var s string
@@ -322,8 +388,15 @@ func (u *c13Unit) render(pkgName string, bundles []c13Bundle, declareBundle bool
 			} else {
 				s = fmt.Sprintf("\tm.Match(%q)", c13Pattern(*r))
 			}
+			var conds []string
 			if r.Filt >= 0 {
-				s += fmt.Sprintf(".Where(m[\"$$\"].Filter(%s))", c13FuncName(r.Filt))
+				conds = append(conds, fmt.Sprintf("m[\"$$\"].Filter(%s)", c13FuncName(r.Filt)))
+			}
+			if r.hasTypeFilter() {
+				conds = append(conds, fmt.Sprintf("m[\"$$\"].Type.Is(%q)", c13TypeFilterArg(*r)))
+			}
+			if len(conds) > 0 {
+				s += ".Where(" + strings.Join(conds, " && ") + ")"
 			}
 			if r.Do >= 0 {
 				s += fmt.Sprintf(".Do(%s)", c13FuncName(r.Do))
@@ -372,6 +445,9 @@ func (r *c13Req) toIR() *ir.File {
 	}
 	emit := func(g c13Group) {
 		ig := ir.RuleGroup{Line: g.Line, Name: fmt.Sprintf("g%03d", g.Name), MatcherName: "m"}
+		for _, imp := range g.Imports {
+			ig.Imports = append(ig.Imports, ir.PackageImport{Path: imp, Name: filepath.Base(imp)})
+		}
 		for _, rl := range g.Rules {
 			ir1 := ir.Rule{Line: rl.Line}
 			ps := ir.PatternString{Line: rl.Line, Value: c13Pattern(rl)}
@@ -384,6 +460,16 @@ func (r *c13Req) toIR() *ir.File {
 				fn := c13FuncName(rl.Filt)
 				ir1.WhereExpr = ir.FilterExpr{Line: rl.Line, Op: ir.FilterVarFilterOp, Src: `m["$$"].Filter(` + fn + `)`, Value: "$$",
 					Args: []ir.FilterExpr{{Op: ir.FilterFilterFuncRefOp, Value: fn}}}
+			}
+			if rl.hasTypeFilter() {
+				arg := c13TypeFilterArg(rl)
+				tf := ir.FilterExpr{Line: rl.Line, Op: ir.FilterVarTypeIsOp, Src: fmt.Sprintf(`m["$$"].Type.Is(%q)`, arg), Value: "$$",
+					Args: []ir.FilterExpr{{Line: rl.Line, Op: ir.FilterStringOp, Src: strconv.Quote(arg), Value: arg}}}
+				if rl.Filt >= 0 {
+					ir1.WhereExpr = ir.FilterExpr{Line: rl.Line, Op: ir.FilterAndOp, Src: ir1.WhereExpr.Src + " && " + tf.Src, Args: []ir.FilterExpr{ir1.WhereExpr, tf}}
+				} else {
+					ir1.WhereExpr = tf
+				}
 			}
 			if rl.Do >= 0 {
 				ir1.DoFuncName = c13FuncName(rl.Do)
@@ -508,6 +594,12 @@ func (g *c13Gen) unit(fileID int, small bool) *c13Unit {
 		}
 		usedG[name] = true
 		grp := c13Group{Name: name}
+		if g.chance(0.4) {
+			for n := 1 + rng.Intn(2); n > 0; n-- {
+				grp.Imports = append(grp.Imports, c13ImportPool[rng.Intn(len(c13ImportPool))])
+			}
+		}
+		typedKeys := c13TypedKeys(grp.Imports)
 		nr := 1 + rng.Intn(4)
 		if g.chance(0.05) {
 			nr = 0
@@ -515,6 +607,16 @@ func (g *c13Gen) unit(fileID int, small bool) *c13Unit {
 		for k := 0; k < nr; k++ {
 			g.nextMsg++
 			r := c13Rule{Bucket: []int{0, 0, 0, 1, 2}[rng.Intn(5)], Key: 1 + rng.Intn(4), Wild: g.chance(0.15), Msg: g.nextMsg, Do: -1, Filt: -1}
+			// qualified type names: a rule of one call key may carry a Type.Is filter spelt with the bare package name;
+			// in a group with Import()s mostly on a key whose package that name denotes there
+			if r.Bucket == 0 && !r.Wild && len(typedKeys) > 0 && g.chance(0.45) {
+				if len(grp.Imports) > 0 || g.chance(0.5) {
+					r.Key = typedKeys[rng.Intn(len(typedKeys))]
+				}
+				for _, tk := range typedKeys {
+					r.Typed = r.Typed || tk == r.Key
+				}
+			}
 			if r.Bucket != 2 {
 				if len(dos) > 0 && g.chance(0.5) {
 					r.Do = dos[rng.Intn(len(dos))]
@@ -523,8 +625,10 @@ func (g *c13Gen) unit(fileID int, small bool) *c13Unit {
 					r.Filt = fls[rng.Intn(len(fls))]
 				}
 			}
-			if g.chance(0.03) {
+			if g.chance(0.03) || len(grp.Imports) > 0 && g.chance(0.08) {
+				// a rule the loader rejects while it is inside the group (after the group's Import()s were entered)
 				r.Bad = true
+				r.badKind = rng.Intn(2)
 			}
 			grp.Rules = append(grp.Rules, r)
 		}
@@ -740,7 +844,7 @@ func c13ErrClass(err error) string {
 		return "err:nofunc"
 	case strings.Contains(s, "can't compile"):
 		return "err:compile"
-	case strings.Contains(s, "parse match pattern"), strings.Contains(s, "compile regexp"):
+	case strings.Contains(s, "parse match pattern"), strings.Contains(s, "compile regexp"), strings.Contains(s, "parse type expr"):
 		return "err:rule"
 	}
 	return "err:other:" + strings.ReplaceAll(s, " ", "_")
@@ -999,7 +1103,9 @@ func runC13(c *Ctx) error {
 	}
 	res.Rule = fmt.Sprintf("%d generated histories of 1..%d Load/LoadFromIR calls on one engine (files with group names from a pool of 7, "+
 		"custom function names from a pool of 12, forward/backward calls between custom functions, failing conversion/compile/rule stages, "+
-		"GroupFilters, reloads of an earlier file, bundles with prefixes, hand-made IR with dangling references/duplicate groups/foreign PkgPath); "+
+		"GroupFilters, reloads of an earlier file, bundles with prefixes, hand-made IR with dangling references/duplicate groups/foreign PkgPath; "+
+		"groups with Import() of text/scanner, html/template, go/scanner, text/template, rules with Type.Is filters spelt with the bare package name (true exactly on the "+
+		"probe nodes of the rule's key when the name resolves through the rule's own group, else the stdlib default), unloadable rules (broken pattern / unknown package in a type filter) inside groups with Import()); "+
 		"after every call: error class, LoadedGroups(), reports of a run over the probe file (%d nodes), and runs with a RunnerState created earlier; "+
 		"non-trivial = at least two calls of which one succeeds and one fails or is filtered; distinct by history text", nHist, maxLen, len(c13ProbeNodes))
 
@@ -1158,6 +1264,26 @@ func c13Distribution(res *hx.Result, h *c13History) {
 			if fwd {
 				res.Dist("req:forward-call")
 			}
+			imports, typed, badInImports := false, false, false
+			for _, g := range r.Unit.Groups {
+				imports = imports || len(g.Imports) > 0
+				for _, rl := range g.Rules {
+					typed = typed || rl.Typed && !rl.Bad
+					badInImports = badInImports || rl.Bad && len(g.Imports) > 0
+				}
+			}
+			if imports {
+				res.Dist("req:group-with-Import()")
+			}
+			if typed {
+				res.Dist("req:rule-with-qualified-type-name")
+			}
+			if badInImports {
+				res.Dist("req:unloadable-rule-in-a-group-with-Import()")
+				if out != "ok" {
+					res.Dist("req:rejected-inside-a-group-with-Import()")
+				}
+			}
 		}
 	}
 	if h.StaleK >= 0 {
@@ -1226,6 +1352,9 @@ func c13Spec(c *Ctx, hs []*c13History, specOps, impl []string, inputs []interfac
 				}
 			default:
 				sig = "Load:" + aspect
+				if aspect == "unresolved-accepted" && hs != nil && hs[i].leftOverName(step) {
+					sig += ":name-left-over-from-another-file"
+				}
 			}
 			sig = sigPrefix + sig
 			in := inputs[i].(map[string]interface{})
@@ -1238,12 +1367,57 @@ func c13Spec(c *Ctx, hs []*c13History, specOps, impl []string, inputs []interfac
 	return nil
 }
 
+// leftOverName: some rule of the call at `step` names a custom function its own file does not declare, but a file of an
+// earlier call (accepted or rejected) or a bundle file of the same call does: the engine-wide name table still binds it.
+func (h *c13History) leftOverName(step int) bool {
+	if step >= len(h.Reqs) {
+		return false
+	}
+	other := map[int]bool{}
+	collect := func(r *c13Req, own bool) {
+		if !own {
+			for _, f := range r.Unit.Funcs {
+				other[f.Name] = true
+			}
+		}
+		for _, b := range r.Bundles {
+			for _, u := range b.Files {
+				for _, f := range u.Funcs {
+					other[f.Name] = true
+				}
+			}
+		}
+	}
+	for i := 0; i < step; i++ {
+		collect(h.Reqs[i], false)
+	}
+	r := h.Reqs[step]
+	collect(r, true)
+	own := map[int]bool{}
+	for _, f := range r.Unit.Funcs {
+		own[f.Name] = true
+	}
+	for _, g := range r.Unit.Groups {
+		for _, rl := range g.Rules {
+			for _, n := range []int{rl.Do, rl.Filt} {
+				if n >= 0 && !own[n] && other[n] {
+					return true
+				}
+			}
+		}
+	}
+	return false
+}
+
 // reportsCause names the feature of the successfully loaded files (steps 0..step) that explains a
 // difference between the reports and what the files say, most specific first.
 func (h *c13History) reportsCause(step int, obs []string) string {
-	forward := false
+	forward, typed, failedInImports := false, false, false
 	for i := 0; i <= step && i < len(h.Reqs); i++ {
 		if !strings.HasPrefix(obs[i], "ok|") {
+			for _, g := range h.Reqs[i].Unit.Groups {
+				failedInImports = failedInImports || len(g.Imports) > 0
+			}
 			continue
 		}
 		r := h.Reqs[i]
@@ -1256,6 +1430,7 @@ func (h *c13History) reportsCause(step int, obs []string) string {
 			for _, g := range u.Groups {
 				for _, rl := range g.Rules {
 					usesFuncs = usesFuncs || rl.Do >= 0 || rl.Filt >= 0
+					typed = typed || rl.hasTypeFilter()
 				}
 			}
 			if u == r.Unit && r.PkgPath != 0 && usesFuncs {
@@ -1275,6 +1450,13 @@ func (h *c13History) reportsCause(step int, obs []string) string {
 	}
 	if forward {
 		return "Run:custom-function-bound-to-another-file"
+	}
+	if typed && failedInImports {
+		// a loaded rule spells a type with a bare package name, and an earlier call failed in a file whose groups Import()
+		return "Run:qualified-type-name-resolved-differently-after-a-failed-Load"
+	}
+	if typed {
+		return "Run:qualified-type-name-in-Type.Is-resolved-differently-than-on-a-fresh-engine"
 	}
 	return ""
 }
@@ -1303,7 +1485,16 @@ func c13Corpus(g *c13Gen) []*c13History {
 	cp := func(r *c13Req) *c13Req { x := *r; u := *r.Unit; x.Unit = &u; return &x }
 	dup := file(906, nil, c13Group{Name: 6, Rules: []c13Rule{rule(0, 1, 9007, -1, -1)}}, c13Group{Name: 6, Rules: []c13Rule{rule(0, 1, 9007, -1, -1)}})
 	dup.IsIR = true
+	// a file rejected inside a group with Import()s, then files whose rules spell types with the bare package name
+	typedRule := func(key, msg int) c13Rule { return c13Rule{Bucket: 0, Key: key, Msg: msg, Do: -1, Filt: -1, Typed: true} }
+	rej := file(907, nil, c13Group{Name: 1, Imports: []string{"text/scanner", "html/template"},
+		Rules: []c13Rule{typedRule(2, 9008), {Bucket: 0, Key: 4, Msg: 9009, Do: -1, Filt: -1, Bad: true, badKind: 1}}})
+	dflt := file(908, nil, c13Group{Name: 2, Rules: []c13Rule{typedRule(1, 9010), typedRule(3, 9011)}},
+		c13Group{Name: 3, Imports: []string{"html/template"}, Rules: []c13Rule{typedRule(4, 9012), typedRule(1, 9013)}})
 	return []*c13History{
+		mk(-1, cp(dflt)),
+		mk(-1, cp(rej), cp(dflt)),
+		mk(-1, cp(dflt), cp(rej), cp(plain)),
 		mk(-1, cp(plain)),
 		mk(-1, cp(dup)),
 		mk(-1, cp(b)),
